@@ -11,6 +11,7 @@ import unicodedata
 from vf import impl
 from vf.gen import values as V
 from vf.model.equal import all_distinct, jeq
+from vf.util import jdump
 from vf.obs.monitor import region_lines, shared_coverage
 
 ID = "C08"
@@ -35,7 +36,7 @@ def floors(tier):
     return {"const_checked": 20000, "enum_checked": 40000, "unique_checked": 40000, "pairs_equal": 5000,
             "pairs_unequal": 5000, "depth0": 500, "depth1": 500, "depth2": 500, "depth3": 500,
             "arrays_all_scalar": 500, "arrays_sortable_containers": 500, "arrays_unsortable": 500,
-            "uniq_regions_hit": 1, "container_class_variants": 5000, "nested_placements": 10000}
+            "uniq_regions_hit": 1, "container_class_variants": 5000, "nested_placements": 10000, "aliased_subvalues": 5000}
 
 
 NFC = unicodedata.normalize("NFC", "é")
@@ -108,6 +109,22 @@ def checks(ctx, c, x, depth, rng, V6=(6, 7), ALL=impl.DRAFTS):
                     continue        # (both branches equal or both differ: never exactly one - nothing to learn)
                 ctx.count("nested_placements")
                 one(ctx, d, cls, schema, inst, exp, "nested")
+        if depth <= 2 and (isinstance(c, (list, dict)) or isinstance(x, (list, dict))):
+            # the same sub-value at several places of one instance, as ONE shared Python object on one side and as
+            # separate objects on the other (data built in a program is aliased like this; parsed JSON never is)
+            import copy
+            cell = copy.deepcopy(x)
+            x_alias = [cell, {"k": cell, "l": [cell]}]
+            c_fresh = [copy.deepcopy(c), {"k": copy.deepcopy(c), "l": [copy.deepcopy(c)]}]
+            ccell = copy.deepcopy(c)
+            c_alias = [ccell, {"k": ccell, "l": [ccell]}]
+            x_fresh = [copy.deepcopy(x), {"k": copy.deepcopy(x), "l": [copy.deepcopy(x)]}]
+            for cc, xx in ((c_fresh, x_alias), (c_alias, x_fresh), (c_alias, x_alias)):
+                ctx.count("aliased_subvalues")
+                if d in V6:
+                    one(ctx, d, cls, {"const": cc}, xx, want, "const", aliased=True)
+                one(ctx, d, cls, {"enum": [cc]}, xx, want, "enum", aliased=True)
+                one(ctx, d, cls, {"uniqueItems": True}, [cc, xx], not want, "unique", aliased=True)
         if _has_container(c) or _has_container(x):
             # the same JSON values in other container classes (both sides, e.g. loaded with object_pairs_hook=OrderedDict:
             # == between two OrderedDicts is order-sensitive; JSON objects are unordered)
@@ -130,8 +147,22 @@ def _dress(v, kind):
     return exotic(v, kind) if kind else v
 
 
-def one(ctx, d, cls, schema, inst, exp, kind, containers=None):
+def _intern(v, pool):
+    """Equal sub-containers become one shared object (rebuilds, for a replay, the aliasing a recorded case had)."""
+    if isinstance(v, list):
+        v = [_intern(e, pool) for e in v]
+    elif isinstance(v, dict):
+        v = {k: _intern(e, pool) for k, e in v.items()}
+    else:
+        return v
+    key = jdump(v)
+    return pool.setdefault(key, v)
+
+
+def one(ctx, d, cls, schema, inst, exp, kind, containers=None, aliased=False):
     case = {"draft": d, "schema": schema, "instance": inst}
+    if aliased:
+        case["aliased_subvalues"] = True
     if containers:
         case["containers"] = list(containers)
         if "uniqueItems" in schema and isinstance(inst, list) and len(inst) == 2:
@@ -248,4 +279,10 @@ def replay(ctx, rec):
         exp = any(jeq(e, inst) for e in schema["enum"])
     else:
         exp = all_distinct(inst)
+    if c.get("aliased_subvalues"):
+        for side in ("schema", "instance", "both"):
+            s2 = _intern(schema, {}) if side in ("schema", "both") else schema
+            i2 = _intern(inst, {}) if side in ("instance", "both") else inst
+            one(ctx, d, impl.CLS[d], s2, i2, exp, "replay", aliased=True)
+        return
     one(ctx, d, impl.CLS[d], schema, inst, exp, "replay", containers=c.get("containers"))
